@@ -131,7 +131,7 @@ struct KnownFinding {
 }
 
 fn load_findings(prop: &str) -> Vec<KnownFinding> {
-    let p = verif_dir().join("known_findings.jsonl");
+    let p = verif_dir().join("known_findings.txt");
     let mut v = Vec::new();
     if let Ok(s) = std::fs::read_to_string(p) {
         for line in s.lines() {
@@ -274,6 +274,7 @@ fn run_check(
     let mut unknown: Vec<(pool::RunResult, Violation)> = Vec::new();
     let mut known_hits: BTreeMap<String, u64> = BTreeMap::new();
     let mut total_violations = 0u64;
+    let mut kinds: BTreeMap<String, u64> = BTreeMap::new();
     let mut hashes: BTreeMap<u64, u64> = BTreeMap::new();
     for r in &results {
         if let Some(e) = &r.harness_error {
@@ -309,6 +310,8 @@ fn run_check(
         }
         for v in &r.violations {
             total_violations += 1;
+            let key = format!("{}|{}", v.kind, summarise(&v.detail));
+            *kinds.entry(key).or_insert(0) += 1;
             if let Some(f) = match_finding(&findings, v) {
                 *known_hits.entry(f.id.clone()).or_insert(0) += 1;
             } else {
@@ -434,6 +437,9 @@ fn run_check(
         known_hits.values().sum::<u64>(),
         wall
     );
+    for (k, n) in &kinds {
+        println!("  {:5} x {}", n, k);
+    }
     if !harness.is_empty() {
         for h in harness.iter().take(5) {
             println!("HARNESS-ERROR: {}", h);
@@ -524,6 +530,25 @@ fn minimise(
         }
     }
     (best, best_v, best_h)
+}
+
+/// Short class of a violation detail for the summary table.
+fn summarise(d: &str) -> String {
+    if let Some(i) = d.find("panicked at ") {
+        let rest = &d[i + 12..];
+        let end = rest.find(|c: char| c == '\n' || c == ' ').unwrap_or(rest.len());
+        return rest[..end].trim_end_matches(':').to_string();
+    }
+    if let Some(i) = d.find("stderr: ") {
+        let rest = &d[i + 8..];
+        let line = rest.lines().rev().find(|l| !l.trim().is_empty()).unwrap_or("");
+        let mut s: String = line.chars().filter(|c| !c.is_ascii_digit()).collect();
+        s.truncate(90);
+        return s;
+    }
+    let mut s: String = d.chars().filter(|c| !c.is_ascii_digit()).collect();
+    s.truncate(60);
+    s
 }
 
 fn case_size(c: &Case) -> usize {
